@@ -12,6 +12,6 @@ Definition check (prop : Z) (inp impl : sx) : sx :=
   else match kind_of inp with
        | 1 => check_eng prop inp impl
        | 2 => check_doc prop inp impl
-       | 3 | 4 | 5 => check_pol prop inp impl
+       | 3 | 4 | 5 | 6 => check_pol prop inp impl
        | _ => badcase
        end.
